@@ -263,4 +263,19 @@ VARIANTS = [
      "new": "        option = self._choose_option(ctx)\n        want_pod = bool(pod)\n"
             "        if pod:\n            return option.decode(val, ctx=ctx, pod=True)\n"
             "        return option.decode(val, ctx=ctx, pod=want_pod)\n"},
+
+    # ---------------------------------------------------------------- round 4: sign facts on the pod leftover
+    {"name": "R2 pod leftover appended only when it is non-negative", "file": DT, "expect": "C09.R2",
+     "old": "    extra = (int(left_over),) if left_over else ()\n"
+            "    return tuple(flag.name for flag in iter(flag_cls) if val & flag.value) + extra\n",
+     "new": "    names = [flag.name for flag in iter(flag_cls) if val & flag.value]\n"
+            "    if left_over >= 1:\n"
+            "        names.append(int(left_over))\n"
+            "    return tuple(names)\n"},
+    {"name": "R2 pod leftover filtered to positive values in a comprehension", "file": DT, "expect": "C09.R2",
+     "old": "    extra = (int(left_over),) if left_over else ()\n",
+     "new": "    extra = tuple(bits for bits in (int(left_over),) if bits > 0)\n"},
+    {"name": "P R2 pod leftover kept whenever it is non-zero (explicit comparison)", "file": DT, "expect": "silent",
+     "old": "    extra = (int(left_over),) if left_over else ()\n",
+     "new": "    extra = (int(left_over),) if left_over != 0 else ()\n"},
 ]
